@@ -63,6 +63,7 @@ type VC struct {
 	capture  *[]string
 	covers   []*Obl
 	replay   *ReplayInfo
+	pcNow    string // path condition of the state being executed: side facts are guarded by it
 }
 
 func newVC(fn string) *VC {
@@ -96,6 +97,12 @@ func (vc *VC) assume(t string) {
 	if vc.capture != nil {
 		*vc.capture = append(*vc.capture, t)
 		return
+	}
+	// A side fact (type range of a loaded value, a callee postcondition, ...) is
+	// about terms that are only meaningful on the path being executed; asserting
+	// it unguarded could make other paths infeasible.
+	if vc.pcNow != "" && vc.pcNow != "true" && !strings.HasPrefix(t, "(=> "+vc.pcNow+" ") {
+		t = "(=> " + vc.pcNow + " " + t + ")"
 	}
 	vc.lines = append(vc.lines, "(assert "+t+")")
 }
